@@ -382,10 +382,12 @@ class Local:
                 node = self.port_node(iname, port, shape)
                 x = conns.get(port)
                 val = None if x is None else self.bits(x, (iname, port))
+                nc_pair = False
                 if isinstance(val, NoConnVal):
                     self.noconn_uses.setdefault(val.ncid, []).append((iname, port))
-                    if kind != "inst":
-                        raise ModelError("no-connect on array / pair (outside this model)")
+                    if kind == "arr":
+                        raise ModelError("no-connect on array (outside this model)")
+                    nc_pair = kind == "pair"  # every member instance's port ends on a net of its own
                     val = None  # R6: the node's own bits are private
                 where = f"{m.name}.{iname}.{port}"
                 if kind == "inst":
@@ -417,6 +419,9 @@ class Local:
                             if len(val[(mem,)]) != shape:
                                 raise IllFormed("width", f"{where}: pair member width")
                             self._assign(pm, port, val[(mem,)])
+                    elif nc_pair:
+                        for (_seg, pm), mem in zip(elems, members):
+                            self._assign(pm, port, self.port_node(("nc", iname, mem), port, shape))
                     else:
                         if val is not None:
                             self.unify(node, val, where)
